@@ -17,6 +17,9 @@ class C19(Prop):
                "rmprefix": 1, "move": 1, "rule": 2, "unrule": 1, "reopen": 1}
     QUICK = (40, 18)
     THOROUGH = (200, 40)
+    TECHNIQUE = ("stateful property-based testing (Hypothesis) against a ledger oracle; thorough tier adds coverage-guided "
+                 "fuzzing of histories (atheris/libFuzzer driving Hypothesis' fuzz_one_input)")
+    FUZZ_RUNS = 400
     ASSUMPTIONS = ["closure of named LRUs from the ledger is the ground truth for block arithmetic",
                    "metrics().nb_crawled_pages is compared with the marks the page enumeration reports (mark correctness is C01)"]
 
